@@ -12,7 +12,7 @@ META = dict(
               "through C04_step_refines; + differential execution of the extracted collection model (run on the extracted storage model: exact record bytes and indexes) against the real collections "
               "through the cfg(agdb_verif) wrappers of hook H4; (L3) the whole database file as a relation over the record map assembled from the L2 invariants, an executable loader proved to return the represented database, "
               "run (extracted) on the raw records of real database files and compared with the reopened database; + maintenance operations executed at random points of generated query histories with ordered full dumps before/after",
-    level_text="PARTIAL (L3 is proved for RELOAD and MAINTENANCE of a stored database, and — round 5 — that a CORE of DbImpl mutations keeps the database stored: insert_node, insert_edge, reserve_key_value_capacity, insert_key_value and insert_or_replace_key_value on keys without an index; and DbImpl::insert_new_alias (C05_db_insert_new_alias_preserves_stored_db_partial, theories/StoredDbOpsAlias*.v: IndexedMapImpl::insert = two MapImpl::insert = insert_or_replace(|_| true) as storage programs — transaction, probe loop over state / key, set_state / set_key / set_value / set_len, commit) for a NEW alias and an id WITHOUT alias when neither alias table grows (len < capacity*15/16) nor rehashes in place (no full probe cycle): C19's invariant PInv of the two stored tables is an explicit hypothesis and is re-established, the table left is the one OpenMap.v's insert_or_replace computes (C05_map_insert_absent_partial, for every DbMapData); there the grow / in-place-rehash branches are PARAMETERS of the program (not executed under the hypotheses); C05_db_insert_new_alias_any_fill_preserves_stored_db_partial + C05_map_insert_absent_any_fill_partial (theories/StoredDbOpsAlias4..8.v) drop both side conditions: rehash_values / rehash_in_place / rehash(capacity*2) = resize + rehash_values are storage programs proved against OpenMap.v's rehash_loop, so the insertion is proved for ANY fill of the tables (empty: grows to 64; full: doubles; no Empty slot: inserts at the first Deleted slot and rehashes in place) — still assumed: PInv (minimum capacity 64) of the stored tables, alias new / id without alias (the two removals after a replaced value stay unexecuted parameters), valid elements, vectors below 2^64 bytes; non-vacuity: C05_db_sample_insert_new_alias(_run) (the example file with its alias tables resized to capacity 4: hypotheses hold together, the program with every unmodelled branch = CDead runs to the end on the storage model) and C05_map_sample_insert_into_empty_grows (insert into an EMPTY table runs through the grow on the storage model); for the other alias operations (insert_alias on an id that has one, remove aliases, removal of an aliased node), indexes, cascading removals, transactions + undo it is not). Machine-checked (coq/Props/C05.v, every theorem closed under the global context): "
+    level_text="PARTIAL (L3 is proved for RELOAD and MAINTENANCE of a stored database, and — round 5 — that a CORE of DbImpl mutations keeps the database stored: insert_node, insert_edge, reserve_key_value_capacity, insert_key_value and insert_or_replace_key_value on keys without an index; and DbImpl::insert_new_alias (C05_db_insert_new_alias_preserves_stored_db_partial, theories/StoredDbOpsAlias*.v: IndexedMapImpl::insert = two MapImpl::insert = insert_or_replace(|_| true) as storage programs — transaction, probe loop over state / key, set_state / set_key / set_value / set_len, commit) for a NEW alias and an id WITHOUT alias when neither alias table grows (len < capacity*15/16) nor rehashes in place (no full probe cycle): C19's invariant PInv of the two stored tables is an explicit hypothesis and is re-established, the table left is the one OpenMap.v's insert_or_replace computes (C05_map_insert_absent_partial, for every DbMapData); there the grow / in-place-rehash branches are PARAMETERS of the program (not executed under the hypotheses); C05_db_insert_new_alias_any_fill_preserves_stored_db_partial + C05_map_insert_absent_any_fill_partial (theories/StoredDbOpsAlias4..8.v) drop both side conditions: rehash_values / rehash_in_place / rehash(capacity*2) = resize + rehash_values are storage programs proved against OpenMap.v's rehash_loop, so the insertion is proved for ANY fill of the tables (empty: grows to 64; full: doubles; no Empty slot: inserts at the first Deleted slot and rehashes in place) — still assumed: PInv (minimum capacity 64) of the stored tables, alias new / id without alias (the two removals after a replaced value stay unexecuted parameters), valid elements, vectors below 2^64 bytes (C05_db_insert_new_alias_bounded_preserves_stored_db_partial: the size conditions from one bound, both tables below 2^56 slots); non-vacuity: C05_db_sample_insert_new_alias(_run) (the example file with its alias tables resized to capacity 4: hypotheses hold together, the program with every unmodelled branch = CDead runs to the end on the storage model) and C05_map_sample_insert_into_empty_grows (insert into an EMPTY table runs through the grow on the storage model); for the other alias operations (insert_alias on an id that has one, remove aliases, removal of an aliased node), indexes, cascading removals, transactions + undo it is not). Machine-checked (coq/Props/C05.v, every theorem closed under the global context): "
                "L3, the whole database in the record store (theories/StoredDb*.v): stored_db g root d — the representation relation assembled from the L2 predicates: root record DbStorageIndex (version 1, six u64) -> "
                "graph (index record + four DbVec<i64> = exactly the four arrays), aliases (two DbMapData tables holding k2v / v2k as multisets, keys distinct), indexes (DbVec of 24-byte entries: value index of the key "
                "(C12) ++ index of a DbMapData<DbValue,DbId>, same order as the model, ids as a multiset), values (DbVec<StorageIndex>, one slot per element slot, 0 or a DbVec<DbKeyValue> holding exactly the property "
